@@ -167,6 +167,9 @@ def recover (g : Geom) (img : Image) (policy : Policy) (order : List Bytes) (fai
           let l : Log := { files := img1.map (·.1), cur := endPos.file,
                            off := endPos.idx * g.B + endPos.cursor, queues := qs, policy := policy }
           let (l', e1, _) := l.runGc g order
-          .ok { log := l', effects := e0 ++ e1, ioCalls := io }
+          -- the GC pass may roll over into an existing next file: one more `open_file` call
+          let nOpen := (e1.filter fun e => match e with | .openFile _ => true | _ => false).length
+          if ioFails failAt io (io + nOpen) then .error .io
+          else .ok { log := l', effects := e0 ++ e1, ioCalls := io + nOpen }
 
 end MRL
